@@ -73,6 +73,15 @@ pub enum AsmMnemonic {
     NOP,
 }
 
+// Two immediate operands are known to differ when both are plain numbers with different
+// low bytes (the value of a symbolic one, #<label, is the assembler's business)
+fn immediates_differ(a: &str, b: &str) -> bool {
+    match (a[1..].parse::<i32>(), b[1..].parse::<i32>()) {
+        (Ok(x), Ok(y)) => (x & 0xff) != (y & 0xff),
+        _ => false,
+    }
+}
+
 impl fmt::Display for AsmMnemonic {
     fn fmt(&self, f: &mut fmt::Formatter) -> fmt::Result {
         fmt::Debug::fmt(self, f)
@@ -459,7 +468,7 @@ impl AssemblyCode {
                                     }
                                 }
                                 AsmMnemonic::BEQ => {
-                                    if *r != i1.dasm_operand && !i2.protected {
+                                    if immediates_differ(r, &i1.dasm_operand) && !i2.protected {
                                         remove_both = true;
                                     }
                                 }
@@ -480,7 +489,7 @@ impl AssemblyCode {
                                     }
                                 }
                                 AsmMnemonic::BEQ => {
-                                    if *r != i1.dasm_operand && !i2.protected {
+                                    if immediates_differ(r, &i1.dasm_operand) && !i2.protected {
                                         remove_both = true;
                                     }
                                 }
@@ -501,7 +510,7 @@ impl AssemblyCode {
                                     }
                                 }
                                 AsmMnemonic::BEQ => {
-                                    if *r != i1.dasm_operand && !i2.protected {
+                                    if immediates_differ(r, &i1.dasm_operand) && !i2.protected {
                                         remove_both = true;
                                     }
                                 }
